@@ -44,12 +44,16 @@ def main():
     if new != txt:
         open(cargo_toml, "w").write(new)
     tdir = os.path.join(runner.HARNESS, "target-cov")
-    env = dict(runner.ENV, RUSTFLAGS="-C instrument-coverage", CARGO_TARGET_DIR=tdir)
+    # build scripts and proc macros are instrumented too and would drop default_*.profraw into their package directory
+    # (that is /repo for the crate itself): send those profiles to the scratch directory instead
+    env = dict(runner.ENV, RUSTFLAGS="-C instrument-coverage", CARGO_TARGET_DIR=tdir, LLVM_PROFILE_FILE=os.path.join(outdir, "build-%p-%m.profraw"))
     rc, out = runner.sh(["cargo", "+" + NIGHTLY, "build", "--offline", "--release"], cwd=runner.HARNESS, env=env, timeout=1800)
     if rc != 0:
         print("coverage.py: instrumented build failed\n" + out[-2000:])
         return 2
     binp = os.path.join(tdir, "release", "nfh")
+    for f in glob.glob(os.path.join(outdir, "build-*.profraw")):
+        os.remove(f)
     files = []
     if props:
         for p in props:
